@@ -175,6 +175,9 @@ def one(cases, rng, tier, rep, d):
                 mk(cases, "getitem/wrong-index-type/%s/%s" % (bad_name, tag), lambda x=x, bad=bad, d=d: x[tuple([bad if not isinstance(bad, (list, dict)) else "q"] * d)] if bad is not None else x["q"], InvalidArguments)
             # --- out-of-range positions
             mk(cases, "sum/axis-out-of-range/" + tag, lambda x=x, d=d: x.sum([d + 2]), InvalidArguments)
+            mk(cases, "sum/axis-equals-order/" + tag, lambda x=x, d=d: x.sum([d]), InvalidArguments)
+            mk(cases, "sum/axis-equals-order-int/" + tag, lambda x=x, d=d: x.sum(d), InvalidArguments)
+            mk(cases, "sum/axis-equals-order-mixed/" + tag, lambda x=x, d=d: x.sum([0, d]), InvalidArguments)
             mk(cases, "sum/negative-axis/" + tag, lambda x=x, d=d: x.sum([-(d + 1)]), InvalidArguments)
             mk(cases, "set_core/position/" + tag, lambda x=x, d=d: x.clone().set_core(d, x.cores[0]), InvalidArguments)
             mk(cases, "set_core/negative/" + tag, lambda x=x, d=d: x.clone().set_core(-1, x.cores[-1]), InvalidArguments)
@@ -185,6 +188,10 @@ def one(cases, rng, tier, rep, d):
                 mk(cases, "getitem/too-few/" + tag, lambda x=x, d=d: x[tuple([0] * (d - 1))], InvalidArguments)
             mk(cases, "getitem/too-many/" + tag, lambda x=x, d=d: x[tuple([0] * (d + 1))], None)
             mk(cases, "getitem/index-out-of-range/" + tag, lambda x=x, d=d: x[tuple([N[0] + 3] + [0] * (d - 1))], None)
+            mk(cases, "getitem/index-equals-size/" + tag, lambda x=x, d=d: x[tuple([0] * (d - 1) + [N[d - 1]])], None)
+            mk(cases, "apply_mask/index-equals-size/" + tag, lambda x=x, d=d: x.apply_mask(tn.tensor([[0] * (d - 1) + [N[d - 1]]])), None)
+            mk(cases, "mprod/mode-equals-order/" + tag, lambda x=x, d=d: x.mprod(tn.ones(2, 2), d), None)
+            mk(cases, "cat/dim-equals-order/" + tag, lambda x=x, d=d: torchtt.cat((x, x), d), InvalidArguments, model=J("guard2", "cat", shape_tok(x), shape_tok(x), d))
             mk(cases, "getitem/two-ellipsis/" + tag, lambda x=x: x[..., 0, ...], NotImplementedError)
             mk(cases, "getitem/ttm-ellipsis/" + tag, lambda A=A: A[..., 0], NotImplementedError)
             if d > 1:
